@@ -108,8 +108,7 @@ func frameEnc(r *prng.R, s *out.Sink, tier string) {
 	rig := newTLSRig()
 	defer rig.lsn.Close()
 	cli, srv := rig.pair()
-	defer cli.Close()
-	defer srv.Close()
+	defer func() { cli.Close(); srv.Close() }()
 	n := 150
 	sizes := []int{0, 1, 31, 32, 33, 255, 256, 1000}
 	big := []int{65535, 65536, 1 << 20}
@@ -117,30 +116,65 @@ func frameEnc(r *prng.R, s *out.Sink, tier string) {
 		n = 1500
 		big = append(big, tssnet.VerifMaxBuffLen-1, tssnet.VerifMaxBuffLen)
 	}
-	for i := 0; i < n+len(big); i++ {
+	// boundary lengths: every payload length within reach of a power of two (the header is 5 bytes, a topic 32: sums that
+	// cross a power of two are what buffer and record sizes are made of), with and without a topic
+	var sweep [][2]int // (size, 1 = with topic / 0 = without)
+	maxPow := 17
+	if tier == "thorough" {
+		maxPow = 21
+	}
+	for k := 5; k <= maxPow; k++ {
+		for d := -45; d <= 5; d++ {
+			if l := (1 << uint(k)) + d; l >= 0 {
+				sweep = append(sweep, [2]int{l, 0}, [2]int{l, 1})
+			}
+		}
+	}
+	total := n + len(big) + len(sweep)
+	for i := 0; i < total; i++ {
 		size := sizes[r.Intn(len(sizes))]
 		if r.Intn(3) == 0 {
 			size = r.Intn(600)
 		}
-		if i >= n {
+		if r.Intn(8) == 0 { // log-uniform up to 256 KiB
+			size = r.Intn(1 << uint(3+r.Intn(16)))
+		}
+		if i >= n && i < n+len(big) {
 			size = big[i-n]
 		}
 		ty, topic, data := legalFrame(r, size)
+		if i >= n+len(big) {
+			sw := sweep[i-n-len(big)]
+			data = r.Bytes(sw[0])
+			if sw[1] == 1 {
+				ty, topic = 2, r.Bytes(32)
+			} else {
+				ty, topic = 0, nil
+			}
+			size = sw[0]
+			s.Distinct[fmt.Sprintf("boundary length %d topic %d", sw[0], sw[1])] = struct{}{}
+		}
 		want := 5 + len(topic) + len(data)
 		got := make([]byte, want)
 		done := make(chan error, 1)
+		srv.SetReadDeadline(time.Now().Add(10 * time.Second))
 		go func() { _, err := io.ReadFull(srv, got); done <- err }()
 		res := safely(func() string {
 			tssnet.VerifSendFrame(cli, func(string, ...interface{}) {}, ty, topic, data)
 			return ""
 		})
+		what := fmt.Sprintf("type %d topic %d bytes data %d bytes", ty, len(topic), len(data))
 		if res == "panic" {
-			s.Violate("C17", "remoteParty.send panics on a legal frame", fmt.Sprintf("type %d topic %d bytes data %d bytes", ty, len(topic), len(data)))
+			s.Violate("C17", "remoteParty.send panics on a legal frame", what)
 			return
 		}
 		if err := <-done; err != nil {
-			s.Violate("C17", "the bytes of a legal frame did not arrive: "+err.Error(), fmt.Sprintf("type %d topic %d bytes data %d bytes", ty, len(topic), len(data)))
-			return
+			s.Violate("C17", fmt.Sprintf("the bytes of a legal frame (%s) did not arrive: %v", what, err), what)
+			// the stream is out of step: a fresh connection for the rest
+			cli.Close()
+			srv.Close()
+			cli, srv = rig.pair()
+			continue
 		}
 		if size <= 1000 {
 			s.Op(fmt.Sprintf("enc/type-%d", ty), true, fmt.Sprintf("net enc %d %s %s", ty, out.Hex(topic), out.Hex(data)), out.Hex(got))
@@ -148,7 +182,7 @@ func frameEnc(r *prng.R, s *out.Sink, tier string) {
 			// header and topic against the model, payload by digest
 			s.Op("enc/large", true, fmt.Sprintf("net enchdr %d %s %d", ty, out.Hex(topic), len(data)), out.Hex(got[:5+len(topic)]))
 			if sha256.Sum256(got[5+len(topic):]) != sha256.Sum256(data) {
-				s.Violate("C17", "payload of a large frame modified in transit", fmt.Sprintf("%d bytes", len(data)))
+				s.Violate("C17", fmt.Sprintf("payload of a frame (%s) modified in transit", what), what)
 			}
 		}
 	}
@@ -452,6 +486,11 @@ func frameLiveScenario(r *prng.R, s *out.Sink, sc string, ca tlsgen.CA, pool *x5
 				for k := 0; k < perSender; k++ {
 					ty, topic, _ := legalFrame(rr, 0)
 					size := sizes[rr.Intn(len(sizes))]
+					if rr.Intn(3) == 0 { // a length within reach of a power of two (payload = 12 bytes of sequence data + size)
+						if size = (1 << uint(5+rr.Intn(13))) - 45 + rr.Intn(51) - 12; size < 0 {
+							size = 0
+						}
+					}
 					payload := make([]byte, 12+size)
 					binary.LittleEndian.PutUint32(payload[0:], uint32(p.id))
 					binary.LittleEndian.PutUint32(payload[4:], uint32(g))
